@@ -37,6 +37,7 @@ class Contract:
         self.xinv = kw.pop('xinv', True)
         self.frame_props = kw.pop('frame_props', None)
         self.variant = kw.pop('variant', None)
+        self.roles = kw.pop('roles', {})                 # sidecar local name -> role ('emptylist#0', 'emptydict#0')
         self.assume_callee_pre = kw.pop('assume_callee_pre', [])   # callees whose preconditions are assumed here
         self.sites = kw.pop('sites', None)               # call ordinal -> dict(assert=[pred], effect=name, props=[..])
         self.expect_refuted = kw.pop('expect_refuted', False)   # case split pinned as an open finding
@@ -58,6 +59,7 @@ class Registry:
         self.user_classes = {}      # synthetic user classes: name -> base
         self.spec_modules = []
         self.scans = {}
+        self.auto_fields = set()    # attributes met in the code without a sidecar type (opaque, outside every frame)
         self.namespaces = {}        # class -> {attribute name: type} for instance-__dict__ modelled classes
         self.frame_tags = {}        # field name / container type -> properties that own its frame obligations
 
